@@ -76,6 +76,19 @@ fn check_seq(c: &SeqCase, reps: usize, obs: &mut Obs) -> Verdict {
         }
         execs += 6;
     }
+    // after diffs on this thread that were aborted by a failing hook or ran out of time in mid-run
+    // (same algorithm; the inputs swapped, and a fixed 48 x 40 pair), the call gives what it gave
+    {
+        let k = c.old.len() % 4;
+        let _ = guard(|| poison_thread(alg_of(c.alg), &c.new, &c.old, k));
+        similar::verif::clock::install(None);
+        match guard(|| run_u32(c)) {
+            Ok(o) if o == base => {}
+            Ok(o) => return Verdict::Fail(format!("{}: after an aborted diff and diffs that ran out of time on the same thread, the call gives {:?}, before it gave {:?}", alg_name(c.alg), o, base)),
+            Err(p) => return Verdict::Fail(format!("capture_diff after aborted diffs: {}", p)),
+        }
+        execs += 4;
+    }
     // two windows of ONE buffer give the ops that the same windows of two separate copies give
     if !c.old.is_empty() {
         let buf = &c.old;
@@ -360,7 +373,7 @@ impl Prop for C20 {
     type Case = Case;
     const ID: &'static str = "C20";
     fn rule() -> String {
-        "cases = Seq(algorithm, old, new, ranges) biased to many unique items with block moves and reversals (so hash-map iteration order could matter) | Text(old, new valid UTF-8, tokenizer in {lines, words, chars}, algorithm), sizes below and above 100 tokens. Each Seq case is executed 1 + 8 times in the same thread and in 4 freshly spawned threads (every HashMap::new() and every new thread draws fresh hasher keys), and under two order-preserving injective relabellings (u64 x -> 7919x+13, zero-padded Strings), with items whose lawful Hash only sees two bits of the value, and with different element types on the two sides (old u64, new Id32: PartialEq<u64> with an unrelated Hash); all op lists must be identical; with a deadline that has already passed, 5 calls in this thread and a fresh thread must agree as well; full-range cases are also diffed as a TEXT diff (TextDiffConfig::diff_slices) over caller-defined DiffableStr tokens that compare by a key only while every occurrence has a different text. Families include sequences of 101-260/500 items with repeats and a long common head and tail, permutations of 90-400 and of 1030-1400/2600 distinct items. two windows of ONE buffer must give the ops of the same windows of two copies. Text: str ops == [u8] ops, repeated runs identical, and a configuration object plus two String buffers that were used for an earlier diff of other texts of the same lengths (refilled in place) give the ops of a fresh diff. Non-trivial = >= 3 unique common items and >= 2 ops (Seq) / > 100 tokens (Text); distinct = distinct serialized case.".into()
+        "cases = Seq(algorithm, old, new, ranges) biased to many unique items with block moves and reversals (so hash-map iteration order could matter) | Text(old, new valid UTF-8, tokenizer in {lines, words, chars}, algorithm), sizes below and above 100 tokens. Each Seq case is executed 1 + 8 times in the same thread and in 4 freshly spawned threads (every HashMap::new() and every new thread draws fresh hasher keys), and under two order-preserving injective relabellings (u64 x -> 7919x+13, zero-padded Strings), with items whose lawful Hash only sees two bits of the value, and with different element types on the two sides (old u64, new Id32: PartialEq<u64> with an unrelated Hash); all op lists must be identical; with a deadline that has already passed, 5 calls in this thread and a fresh thread must agree as well; after a diff aborted by a failing hook and two diffs that ran out of time in mid-run on the same thread the call must give the same ops again; full-range cases are also diffed as a TEXT diff (TextDiffConfig::diff_slices) over caller-defined DiffableStr tokens that compare by a key only while every occurrence has a different text. Families include sequences of 101-260/500 items with repeats and a long common head and tail, permutations of 90-400 and of 1030-1400/2600 distinct items. two windows of ONE buffer must give the ops of the same windows of two copies. Text: str ops == [u8] ops, repeated runs identical, and a configuration object plus two String buffers that were used for an earlier diff of other texts of the same lengths (refilled in place) give the ops of a fresh diff. Non-trivial = >= 3 unique common items and >= 2 ops (Seq) / > 100 tokens (Text); distinct = distinct serialized case.".into()
     }
     fn assumptions() -> Vec<String> {
         vec![
